@@ -614,6 +614,16 @@ fn c10_preempt_x(pipes: &[Pipe], nops: usize, max_preempt: u32, sample_closed: b
       }
     }
   }
+  // no lost terminal: a complete / error handed to a single-input thread-safe pipeline that nobody unsubscribed
+  // reaches the subscriber once all scheduled work has been drained (a waiter on it would otherwise sleep forever)
+  {
+    let single = matches!(p, Pipe::ObserveOn | Pipe::Delay | Pipe::Debounce | Pipe::ThrottleTail | Pipe::Finalize | Pipe::Last | Pipe::Share | Pipe::Behavior) || RATE_PIPES.contains(&p) || MOVE_PIPES.contains(&p);
+    let fed_terminal = script.iter().flatten().any(|o| matches!(o, TOp::Feed(_, Ev::Complete) | TOp::Feed(_, Ev::Err(_))));
+    let cut = script.iter().flatten().any(|o| matches!(o, TOp::Unsub));
+    if single && fed_terminal && !cut && !rig.probes[0].terminated() {
+      e::fail(&format!("terminal-lost/{:?}", p), || format!("the source terminated and nobody unsubscribed, yet after draining every scheduled task the subscriber has seen [{}]", model::show_events(&rig.probes[0].events())));
+    }
+  }
   if p == Pipe::Finalize {
     let n = world::counter(1);
     let triggered = rig.probes[0].terminated() || rig.unsub.borrow().is_none();
